@@ -135,6 +135,19 @@ def run(ctx):
             w = cs[0]
             expect(ctx, {"what": f"random_transfer: weight {wbad}", "profile": s2},
                    lambda bl=bl, w=w: el.random_transfer(w, 5, bl, 1), TypeError, "random_transfer")
+        # ... the same refusals at magnitudes where a relative tolerance would swallow the fractional part (the offending ballot
+        # is never led by the winner: a count that wrongly accepts it must not try to expand 10^9 votes one by one)
+        for wbad in (F(10 ** 9) + F(1, 2), F(2 ** 53) + F(1, 2), F(10 ** 12) + F(1, 3), 1 + F(1, 10 ** 12), 5 + F(1, 10 ** 9),
+                     F(10 ** 6) + F(1, 10 ** 6)):
+            others = [c for c in cs if c != cs[0]]
+            s2 = with_bad_ballot(spec, B(rnd.sample(others, len(others)) + [cs[0]], wbad), pos)
+            bl = [canon.build_ballot(b) for b in s2["ballots"] if b.get("r")]
+            expect(ctx, {"what": f"random_transfer: weight {wbad} (almost an integer / huge)", "profile": s2},
+                   lambda bl=bl, w=cs[0]: el.random_transfer(w, 5, bl, 1), TypeError, "random_transfer")
+            if wbad < 100:
+                cfg, fn = mk("PluralityVeto", s2)
+                expect(ctx, {"what": f"PluralityVeto: weight {wbad} (almost an integer)", "cfg": cfg, "profile": s2}, fn, TypeError,
+                       "integer_weights")
         bl = [canon.build_ballot(b) for b in spec["ballots"]]
         lead = sum(b.weight for b in bl if b.ranking[0] == frozenset([cs[0]]))
         expect(ctx, {"what": "random_transfer: integer weights", "profile": spec},
